@@ -304,6 +304,15 @@ def main():
     for p in po["problems"]:
         violations.append((p, None, False))
 
+    # thorough: independent re-check of the compiled property file and everything it depends on
+    if tier == "thorough" and not po["problems"]:
+        rc, out = build.sh("timeout 1500 coqchk -o -silent -Q . MsqlVerif MsqlVerif.Properties.%s" % prop, cwd=COQ, timeout=1600)
+        m = re.search(r"\* Axioms:\s*(.*?)\n\s*\n", out, re.S)
+        ax = m.group(1).strip() if m else "?"
+        po["coqchk"] = {"rc": rc, "axioms": ax}
+        if rc != 0 or ax != "<none>":
+            po["problems"].append("coqchk: rc=%d axioms=%s" % (rc, ax[:300]))
+            violations.append(("independent checker (coqchk) does not accept the property file: rc=%d axioms=%s" % (rc, ax[:300]), None, False))
     corr = {"evaluations": 0, "distinct_nontrivial": 0, "mismatches": 0, "oracle_failures": 0, "samples": [], "hist": {}}
     ctx.corr = corr
     known_hits = []
@@ -334,7 +343,7 @@ def main():
             "obligations": max(po["obligations"], 1), "discharged": po["discharged"],
             "checker_cmd": "coq_makefile -f _CoqProject -o Makefile && make (coqc 8.16.1, full .vo) ; coqc build/chk_%s.v (Print Assumptions)" % prop,
             "trusted_base": TRUSTED_BASE + getattr(mod, "TRUSTED_EXTRA", []),
-            "theorems": po["theorems"], "assumptions": po["assumptions"],
+            "theorems": po["theorems"], "assumptions": po["assumptions"], "coqchk": po.get("coqchk"),
             "evaluations": corr["evaluations"], "distinct_nontrivial": corr["distinct_nontrivial"],
             "rule": getattr(mod, "RULE", ""), "samples": corr["samples"][:6],
             "input_distribution": corr["hist"], "correspondence_mismatches": corr["mismatches"],
